@@ -2,7 +2,7 @@
 //! a scripted server that plays one behaviour per connection attempt, under the paused clock.
 
 use crate::common::*;
-use penguin_simnet::{TcpListener, TcpStream};
+use penguin_simnet::{TcpListener, TcpStream, UdpSocket};
 use rusty_penguin_lib::server::{State, run_listener};
 use serde::{Deserialize, Serialize};
 use simcore::{Outcome, Sched};
@@ -61,6 +61,11 @@ pub struct C19Plan {
     /// the client's keepalive interval and timeout in ms (0 = none), timed on the simulated clock
     #[serde(default)]
     pub keepalive_ms: [u64; 2],
+    /// a local UDP client sends this many datagrams to a UDP remote right at the start - while the
+    /// tunnel is down if the script begins that way (the client's queue towards its main loop has
+    /// 64 slots) - and, once the healthy server is there, goes on sending until one is answered
+    #[serde(default)]
+    pub udp_down: usize,
 }
 
 #[derive(Clone, Debug)]
@@ -164,11 +169,58 @@ pub fn run(plan: &C19Plan, sched: &Sched) -> Outcome {
                         });
                     }
                 };
+                let healthy_flag: Rc<std::cell::Cell<bool>> = Default::default();
+                if plan.udp_down > 0 {
+                    let echo = UdpSocket::bind("127.0.0.1:9100").await.expect("udp target");
+                    tokio::task::spawn_local(async move {
+                        let mut b = vec![0u8; 2048];
+                        loop {
+                            let Ok((n, from)) = echo.recv_from(&mut b).await else { break };
+                            echo.send_to(&b[..n], from).await.ok();
+                        }
+                    });
+                    let (n_down, hf, lr) = (plan.udp_down, healthy_flag.clone(), lr.clone());
+                    tokio::task::spawn_local(async move {
+                        let remote: std::net::SocketAddr = "127.0.0.1:7100".parse().expect("addr");
+                        let sock = UdpSocket::bind("127.0.0.1:0").await.expect("local udp");
+                        tokio::time::sleep(ms(3)).await;
+                        for k in 0..n_down {
+                            sock.send_to(format!("down-{k}").as_bytes(), remote).await.ok();
+                            tokio::time::sleep(ms(1)).await;
+                        }
+                        while !hf.get() {
+                            tokio::time::sleep(ms(50)).await;
+                        }
+                        let t = now();
+                        let mut buf = vec![0u8; 2048];
+                        let mut served = false;
+                        'probe: for k in 0..60 {
+                            let msg = format!("after-{k}");
+                            sock.send_to(msg.as_bytes(), remote).await.ok();
+                            let deadline = tokio::time::sleep(ms(250));
+                            tokio::pin!(deadline);
+                            loop {
+                                tokio::select! {
+                                    () = &mut deadline => break,
+                                    r = sock.recv_from(&mut buf) => {
+                                        if let Ok((n, from)) = r {
+                                            if buf[..n].starts_with(b"after-") && from == remote {
+                                                served = true;
+                                                break 'probe;
+                                            }
+                                        }
+                                    }
+                                }
+                            }
+                        }
+                        lr.borrow_mut().push((usize::MAX, t, if served { "udp served" } else { "udp not served" }.to_string()));
+                    });
+                }
                 let mut recs: Vec<Rec> = vec![];
                 let mut missing = None;
                 // the scripted server must be in place before the client's first attempt
                 tokio::time::sleep(ms(1)).await;
-                let client = spawn_client(&ClientCfg { server: format!("ws://127.0.0.1:{PORT}/ws"), remotes: vec!["127.0.0.1:7000:127.0.0.1:9000".into()], max_retry_count: plan.max_count, max_retry_interval: plan.max_iv, handshake_timeout_s: plan.hs_to_s, channel_timeout_s: plan.ch_to_s, psk: None, keepalive_ms: plan.keepalive_ms });
+                let client = spawn_client(&ClientCfg { server: format!("ws://127.0.0.1:{PORT}/ws"), remotes: if plan.udp_down > 0 { vec!["127.0.0.1:7000:127.0.0.1:9000".into(), "127.0.0.1:7100:127.0.0.1:9100/udp".into()] } else { vec!["127.0.0.1:7000:127.0.0.1:9000".into()] }, max_retry_count: plan.max_count, max_retry_interval: plan.max_iv, handshake_timeout_s: plan.hs_to_s, channel_timeout_s: plan.ch_to_s, psk: None, keepalive_ms: plan.keepalive_ms });
                 let mut seen = 0usize;
                 let mut held: Vec<Box<dyn std::any::Any>> = vec![];
                 'script: for (phase, b) in plan.script.iter().enumerate() {
@@ -334,6 +386,7 @@ pub fn run(plan: &C19Plan, sched: &Sched) -> Outcome {
                             let state = State::new().await.expect("state");
                             tokio::spawn(run_listener(l, None, state));
                             recs.push(Rec { at, fail: None, completed: true, silent_from: None });
+                            healthy_flag.set(true);
                             // serve what is parked and what still arrives
                             tokio::time::sleep(Duration::from_secs(120)).await;
                             break 'script;
@@ -535,6 +588,19 @@ fn judge(plan: &C19Plan, recs: Vec<Rec>, cres: Option<String>, attempts: Vec<(Du
                     o.violate("C19:local-connection-dropped", format!("local connection {i} (made during phase {} = {:?}, while the tunnel was down or its request timed out) was not served by the next successful connection: {:?}; {desc}", l.phase, plan.script.get(l.phase), other.map(|x| &x.2)));
                 }
             }
+        }
+    }
+    // ---- the UDP remote: datagrams queued while the tunnel was down neither end the client nor
+    //      wedge the remote: once the healthy server is there a datagram is answered
+    if plan.udp_down > 0 && healthy_reached && !gave_up && !ended_nonretryable {
+        match locals.iter().find(|x| x.0 == usize::MAX) {
+            Some((_, _, r)) if r == "udp served" => {
+                o.probe("udp-remote-served-after-reconnect", 1);
+                if plan.udp_down > 64 && matches!(plan.script.first(), Some(Beh::Refuse | Beh::Stall)) {
+                    o.probe("udp-backlog-beyond-the-queue-while-down", 1);
+                }
+            }
+            other => o.violate("C19:udp-not-served-after-reconnect", format!("a local UDP client sent {} datagrams to the UDP remote from the start (tunnel down: {}), and once the healthy server was there no further datagram of it was answered within 15 s: {:?}; {desc}", plan.udp_down, matches!(plan.script.first(), Some(Beh::Refuse | Beh::Stall)), other.map(|x| &x.2))),
         }
     }
     o.nontrivial = recs.len() >= 2;
